@@ -62,13 +62,43 @@ public:
     std::string printVariable(const VariablePtr &variable, IdList &idList, bool autoIds);
 };
 
+/**
+ * @brief Escape the characters of @p text that are markup in an XML attribute value.
+ *
+ * The document is assembled as text before it is handed to libxml2, so names,
+ * references, identifiers and URLs have to be escaped here: a value such as
+ * @c "model.cellml?a=1&b=2" would otherwise make the whole document ill-formed.
+ *
+ * @param text The attribute value to escape.
+ *
+ * @return The escaped value.
+ */
+std::string escapeXml(const std::string &text)
+{
+    std::string res;
+    for (const char c : text) {
+        if (c == '&') {
+            res += "&amp;";
+        } else if (c == '<') {
+            res += "&lt;";
+        } else if (c == '>') {
+            res += "&gt;";
+        } else if (c == '"') {
+            res += "&quot;";
+        } else {
+            res += c;
+        }
+    }
+    return res;
+}
+
 std::string printMapVariables(const VariablePairPtr &variablePair, IdList &idList, bool autoIds)
 {
-    std::string mapVariables = "<map_variables variable_1=\"" + variablePair->variable1()->name() + "\""
-                               + " variable_2=\"" + variablePair->variable2()->name() + "\"";
+    std::string mapVariables = "<map_variables variable_1=\"" + escapeXml(variablePair->variable1()->name()) + "\""
+                               + " variable_2=\"" + escapeXml(variablePair->variable2()->name()) + "\"";
     std::string mappingId = Variable::equivalenceMappingId(variablePair->variable1(), variablePair->variable2());
     if (!mappingId.empty()) {
-        mapVariables += " id=\"" + mappingId + "\"";
+        mapVariables += " id=\"" + escapeXml(mappingId) + "\"";
     } else if (autoIds) {
         mapVariables += " id=\"" + makeUniqueId(idList) + "\"";
     }
@@ -115,12 +145,12 @@ std::string printConnections(const ComponentMap &componentMap, const VariableMap
             ++componentMapIndex2;
         }
         // Serialise out the new connection.
-        connections += "<connection component_1=\"" + currentComponent1->name() + "\"";
+        connections += "<connection component_1=\"" + escapeXml(currentComponent1->name()) + "\"";
         if (currentComponent2 != nullptr) {
-            connections += " component_2=\"" + currentComponent2->name() + "\"";
+            connections += " component_2=\"" + escapeXml(currentComponent2->name()) + "\"";
         }
         if (!connectionId.empty()) {
-            connections += " id=\"" + connectionId + "\"";
+            connections += " id=\"" + escapeXml(connectionId) + "\"";
         } else if (autoIds) {
             connections += " id=\"" + makeUniqueId(idList) + "\"";
         }
@@ -209,10 +239,10 @@ std::string Printer::PrinterImpl::printUnits(const UnitsPtr &units, IdList &idLi
         repr += "<units";
         std::string unitsName = units->name();
         if (!unitsName.empty()) {
-            repr += " name=\"" + unitsName + "\"";
+            repr += " name=\"" + escapeXml(unitsName) + "\"";
         }
         if (!units->id().empty()) {
-            repr += " id=\"" + units->id() + "\"";
+            repr += " id=\"" + escapeXml(units->id()) + "\"";
         } else if (autoIds) {
             repr += " id=\"" + makeUniqueId(idList) + "\"";
         }
@@ -234,11 +264,11 @@ std::string Printer::PrinterImpl::printUnits(const UnitsPtr &units, IdList &idLi
                     repr += " multiplier=\"" + convertToString(multiplier) + "\"";
                 }
                 if (!prefix.empty()) {
-                    repr += " prefix=\"" + prefix + "\"";
+                    repr += " prefix=\"" + escapeXml(prefix) + "\"";
                 }
-                repr += " units=\"" + reference + "\"";
+                repr += " units=\"" + escapeXml(reference) + "\"";
                 if (!id.empty()) {
-                    repr += " id=\"" + id + "\"";
+                    repr += " id=\"" + escapeXml(id) + "\"";
                 } else if (autoIds) {
                     repr += " id=\"" + makeUniqueId(idList) + "\"";
                 }
@@ -262,10 +292,10 @@ std::string Printer::PrinterImpl::printComponent(const ComponentPtr &component, 
         repr += "<component";
         std::string componentName = component->name();
         if (!componentName.empty()) {
-            repr += " name=\"" + componentName + "\"";
+            repr += " name=\"" + escapeXml(componentName) + "\"";
         }
         if (!component->id().empty()) {
-            repr += " id=\"" + component->id() + "\"";
+            repr += " id=\"" + escapeXml(component->id()) + "\"";
         } else if (autoIds) {
             repr += " id=\"" + makeUniqueId(idList) + "\"";
         }
@@ -312,10 +342,10 @@ std::string Printer::PrinterImpl::printEncapsulation(const ComponentPtr &compone
     std::string componentName = component->name();
     std::string repr = "<component_ref";
     if (!componentName.empty()) {
-        repr += " component=\"" + componentName + "\"";
+        repr += " component=\"" + escapeXml(componentName) + "\"";
     }
     if (!component->encapsulationId().empty()) {
-        repr += " id=\"" + component->encapsulationId() + "\"";
+        repr += " id=\"" + escapeXml(component->encapsulationId()) + "\"";
     } else if (autoIds) {
         repr += " id=\"" + makeUniqueId(idList) + "\"";
     }
@@ -344,19 +374,19 @@ std::string Printer::PrinterImpl::printVariable(const VariablePtr &variable, IdL
     std::string initial_value = variable->initialValue();
     std::string interface_type = variable->interfaceType();
     if (!name.empty()) {
-        repr += " name=\"" + name + "\"";
+        repr += " name=\"" + escapeXml(name) + "\"";
     }
     if (!units.empty()) {
-        repr += " units=\"" + units + "\"";
+        repr += " units=\"" + escapeXml(units) + "\"";
     }
     if (!initial_value.empty()) {
-        repr += " initial_value=\"" + initial_value + "\"";
+        repr += " initial_value=\"" + escapeXml(initial_value) + "\"";
     }
     if (!interface_type.empty()) {
-        repr += " interface=\"" + interface_type + "\"";
+        repr += " interface=\"" + escapeXml(interface_type) + "\"";
     }
     if (!id.empty()) {
-        repr += " id=\"" + id + "\"";
+        repr += " id=\"" + escapeXml(id) + "\"";
     } else if (autoIds) {
         repr += " id=\"" + makeUniqueId(idList) + "\"";
     }
@@ -373,7 +403,7 @@ std::string Printer::PrinterImpl::printResetChild(const std::string &childLabel,
     if (!childId.empty() || !math.empty()) {
         repr += "<" + childLabel;
         if (!childId.empty()) {
-            repr += " id=\"" + childId + "\"";
+            repr += " id=\"" + escapeXml(childId) + "\"";
         } else if (autoIds) {
             repr += " id=\"" + makeUniqueId(idList) + "\"";
         }
@@ -397,16 +427,16 @@ std::string Printer::PrinterImpl::printReset(const ResetPtr &reset, IdList &idLi
     bool hasChild = false;
 
     if (variable) {
-        repr += " variable=\"" + variable->name() + "\"";
+        repr += " variable=\"" + escapeXml(variable->name()) + "\"";
     }
     if (testVariable) {
-        repr += " test_variable=\"" + testVariable->name() + "\"";
+        repr += " test_variable=\"" + escapeXml(testVariable->name()) + "\"";
     }
     if (reset->isOrderSet()) {
         repr += " order=\"" + convertToString(reset->order()) + "\"";
     }
     if (!rid.empty()) {
-        repr += " id=\"" + rid + "\"";
+        repr += " id=\"" + escapeXml(rid) + "\"";
     } else if (autoIds) {
         repr += " id=\"" + makeUniqueId(idList) + "\"";
     }
@@ -458,9 +488,9 @@ std::string Printer::PrinterImpl::printImports(const ModelPtr &model, IdList &id
         }
     }
     for (auto &importSource : collatedImportSources) {
-        repr += "<import xmlns:xlink=\"http://www.w3.org/1999/xlink\" xlink:href=\"" + importSource->url() + "\"";
+        repr += "<import xmlns:xlink=\"http://www.w3.org/1999/xlink\" xlink:href=\"" + escapeXml(importSource->url()) + "\"";
         if (!importSource->id().empty()) {
-            repr += " id=\"" + importSource->id() + "\"";
+            repr += " id=\"" + escapeXml(importSource->id()) + "\"";
         } else if (autoIds) {
             repr += " id=\"" + makeUniqueId(idList) + "\"";
         }
@@ -468,9 +498,9 @@ std::string Printer::PrinterImpl::printImports(const ModelPtr &model, IdList &id
 
         for (const UnitsPtr &units : importedUnits) {
             if (units->importSource() == importSource) {
-                repr += "<units units_ref=\"" + units->importReference() + "\" name=\"" + units->name() + "\"";
+                repr += "<units units_ref=\"" + escapeXml(units->importReference()) + "\" name=\"" + escapeXml(units->name()) + "\"";
                 if (!units->id().empty()) {
-                    repr += " id=\"" + units->id() + "\"";
+                    repr += " id=\"" + escapeXml(units->id()) + "\"";
                 } else if (autoIds) {
                     repr += " id=\"" + makeUniqueId(idList) + "\"";
                 }
@@ -479,9 +509,9 @@ std::string Printer::PrinterImpl::printImports(const ModelPtr &model, IdList &id
         }
         for (const ComponentPtr &component : importedComponents) {
             if (component->importSource() == importSource) {
-                repr += "<component component_ref=\"" + component->importReference() + "\" name=\"" + component->name() + "\"";
+                repr += "<component component_ref=\"" + escapeXml(component->importReference()) + "\" name=\"" + escapeXml(component->name()) + "\"";
                 if (!component->id().empty()) {
-                    repr += " id=\"" + component->id() + "\"";
+                    repr += " id=\"" + escapeXml(component->id()) + "\"";
                 } else if (autoIds) {
                     repr += " id=\"" + makeUniqueId(idList) + "\"";
                 }
@@ -529,10 +559,10 @@ std::string Printer::printModel(const ModelPtr &model, bool autoIds)
     std::string repr;
     repr += "<?xml version=\"1.0\" encoding=\"UTF-8\"?><model xmlns=\"http://www.cellml.org/cellml/2.0#\"";
     if (!model->name().empty()) {
-        repr += " name=\"" + model->name() + "\"";
+        repr += " name=\"" + escapeXml(model->name()) + "\"";
     }
     if (!model->id().empty()) {
-        repr += " id=\"" + model->id() + "\"";
+        repr += " id=\"" + escapeXml(model->id()) + "\"";
     } else if (autoIds) {
         repr += " id=\"" + makeUniqueId(idList) + "\"";
     }
@@ -572,7 +602,7 @@ std::string Printer::printModel(const ModelPtr &model, bool autoIds)
     if (!componentEncapsulation.empty()) {
         repr += "<encapsulation";
         if (!model->encapsulationId().empty()) {
-            repr += " id=\"" + model->encapsulationId() + "\">";
+            repr += " id=\"" + escapeXml(model->encapsulationId()) + "\">";
         } else if (autoIds) {
             repr += " id=\"" + makeUniqueId(idList) + "\">";
         } else {
